@@ -30,7 +30,7 @@ type ListSpec struct {
 	Styles  []int `json:"style_profiles"`  // profile index per style s0,s1,...
 	Regions []int `json:"region_profiles"` // profile per region r0,...
 	Dates   bool  `json:"stl_dates_in_metadata"`
-	IDs     int   `json:"id_scheme,omitempty"` // 0: s0,s1,.. / r0,r1,..; 1: identifiers equal up to case; 2: equal as numbers; 3: keys s0.. with blank ID fields; 4: keys s0.. with the same ID field
+	IDs     int   `json:"id_scheme,omitempty"` // 0: s0,s1,.. / r0,r1,..; 1: identifiers equal up to case; 2: equal as numbers; 3: keys s0.. with blank ID fields; 4: keys s0.. with the same ID field; 5: the first style is called Default
 }
 
 // identifier schemes: distinct identifiers that tie under a weaker comparison a writer might sort by
@@ -39,6 +39,9 @@ var styleIDs = [][]string{nil, {"Title", "title", "TITLE", "tITLE", "TiTle", "ti
 var regionIDs = [][]string{nil, {"Top", "top", "TOP", "tOP", "ToP", "toP"}, {"2", "02", "002", "0002", "00002", "000002"}}
 
 func (ls ListSpec) styleID(i int) string {
+	if ls.IDs == 5 && i == 0 {
+		return "Default" // an identifier that means something to a format (the style SSA players fall back on)
+	}
 	if ls.IDs == 0 || ls.IDs >= 3 {
 		return fmt.Sprintf("s%d", i)
 	}
@@ -174,6 +177,9 @@ func specs(tier core.Tier) []ListSpec {
 				continue
 			}
 			out = append(out, ListSpec{Styles: st, Regions: rg, Dates: true})
+			if len(st) >= 1 && len(st) <= 2 {
+				out = append(out, ListSpec{Styles: st, Regions: rg, Dates: true, IDs: 5})
+			}
 			if len(st) >= 2 || len(rg) >= 2 {
 				for ids := 1; ids <= 4; ids++ {
 					if len(st) <= 3 || tier == core.Thorough {
